@@ -127,6 +127,15 @@ def _join_helper_threads(ctx):
     return True
 
 
+def consumer_view(h):
+    """what the consumer of a paging session will see, in arrival order: 'page' / 'error' items of the session's queue
+    (on_page / on_error append on the left; nothing consumes in this harness)"""
+    s = h['session']
+    if s is None:
+        return []
+    return ['error' if item[2] is not None else 'page' for item in reversed(s._page_queue)]
+
+
 class DirectRun(object):
     def __init__(self, mods, v):
         self.P, self.C, self.F, Bare = mods
@@ -224,7 +233,7 @@ def run_direct_case(ctx, mods, v, hist, kind, pos, same_read, second, rng_pick):
     outstanding = set(pending)
     cp_live = set(live_cp)
     calls_before = dict((t, len(h['calls'])) for t, h in run.h.items())
-    pages_before = dict((t, len(h['pages'])) for t, h in run.h.items())
+    view_before = dict((t, len(consumer_view(h))) for t, h in run.h.items())
     # ---- the tail: frames of later responses that arrive in the same read as the failing frame
     tail = b''
     tail_events = []
@@ -328,8 +337,11 @@ def run_direct_case(ctx, mods, v, hist, kind, pos, same_read, second, rng_pick):
         pass
     for t in cp_live:
         h = run.h[t]
-        nerr = len(h['errors'])
-        late_pages = [s for s in h['pages'][pages_before[t]:]]
+        # judged on what reaches the consumer (the session's queue), not on how often the driver calls into the session
+        after = consumer_view(h)[view_before[t]:]
+        nerr = after.count('error')
+        first_err = after.index('error') if nerr else None
+        late_pages = [i for i, k in enumerate(after) if k == 'page']
         if nerr == 0:
             if kind == 'eof':
                 viol.append(('cp-session-not-errored-on-close', 'paging session on stream %d got no on_error when the connection was closed (close())' % h['rid']))
@@ -342,7 +354,7 @@ def run_direct_case(ctx, mods, v, hist, kind, pos, same_read, second, rng_pick):
             else:
                 viol.append(('cp-session-errored-more-than-once', 'paging session on stream %d got on_error %d times after failure %s (second=%s)' % (
                     h['rid'], nerr, kind, second)))
-        if nerr and any(s > h['errors'][0][0] for s in late_pages):
+        if nerr and any(i > first_err for i in late_pages):
             if same_read and kind in FRAME_KINDS:
                 viol.append(('cp-session-page-after-error-same-read', 'paging session on stream %d received a page after its on_error: the page frame was in the same '
                              'read as the failing frame and process_io_buffer kept dispatching' % h['rid']))
